@@ -140,7 +140,7 @@ def run_scenario(run: Run, scen: dict, rng: random.Random):
 
 
 def check(run: Run, tier: str, seed: int):
-    n = 70 if tier == "quick" else 1000
+    n = 140 if tier == "quick" else 1000
     for i in range(n):
         srng = random.Random(f"C05-{seed}-{i}")
         o = dict(OPTS)
